@@ -25,6 +25,7 @@ WITH THE SOFTWARE OR THE USE OR OTHER DEALINGS IN THE SOFTWARE.
 *********************************************************************/
 
 #include "CoreSMTSolver.h"
+#include <common/VerifTrace.h>
 #include "ResolutionProof.h"
 
 #include <tsolvers/TSolver.h>
@@ -87,6 +88,7 @@ TPropRes CoreSMTSolver::handleNewSplitClauses(SplitClauses & splitClauses) {
 
     for (int index : sortedIndices) {
         auto & splitClause = splitClauses[index];
+        VERIF_CLAUSE("th", "split", splitClause, splitClause.size());
         unsigned satisfied = 0;
         unsigned unknown = 0;
         std::optional<int> notFalsifiedIndex = std::nullopt;
@@ -182,9 +184,17 @@ CoreSMTSolver::handleSat()
             // Maybe do something someday?
         }
         CRef deducedReason = CRef_Fake;
+#ifdef OPENSMT_VERIF
+        if (VERIF_ON() and decisionLevel() == 0 and not logsResolutionProof()) {
+            vec<Lit> verifReason;
+            theory_handler.getReason(l, verifReason);
+            VERIF_CLAUSE("th", "root", verifReason, verifReason.size());
+        }
+#endif
         if (decisionLevel() == 0 and logsResolutionProof()) {
             vec<Lit> reasonLits;
             theory_handler.getReason(l, reasonLits);
+            VERIF_CLAUSE("th", "root", reasonLits, reasonLits.size());
             assert(reasonLits.size() > 0);
             CRef theoryReason = ca.alloc(reasonLits);
             CRef unit = ca.alloc(vec<Lit>{l});
@@ -223,6 +233,14 @@ CoreSMTSolver::handleUnsat()
     if (!logsResolutionProof()) {
         // Top-level conflict, problem is T-Unsatisfiable
         if (decisionLevel() == 0) {
+#ifdef OPENSMT_VERIF
+            if (VERIF_ON()) {
+                vec<Lit> verifConflict;
+                int verifLevel;
+                theory_handler.getConflict(verifConflict, vardata, verifLevel);
+                VERIF_CLAUSE("th", "conflict", verifConflict, verifConflict.size());
+            }
+#endif
             return TPropRes::Unsat;
         }
     }
@@ -232,6 +250,7 @@ CoreSMTSolver::handleUnsat()
     int        backtrack_level;
 
     theory_handler.getConflict(conflicting, vardata, max_decision_level);
+    VERIF_CLAUSE("th", "conflict", conflicting, conflicting.size());
     assert(std::none_of(conflicting.begin(), conflicting.end(), [this](Lit l) { return value(l) == l_Undef; }));
 
     assert( max_decision_level <= decisionLevel( ) );
@@ -274,6 +293,7 @@ CoreSMTSolver::handleUnsat()
         resolutionProof->newTheoryClause(confl);
     }
     analyze(confl, learnt_clause, backtrack_level);
+    VERIF_CLAUSE("l", "", learnt_clause, learnt_clause.size());
 
     if (!logsResolutionProof()) {
         // Get rid of the temporary lemma
